@@ -16,6 +16,7 @@ from __future__ import annotations
 import datetime as dt
 import json
 import math
+import os
 import shutil
 import sqlite3
 from fractions import Fraction
@@ -495,6 +496,19 @@ def midnight_cases(w: World):
     return out
 
 
+PROCESS_TZS = ('Asia/Tokyo', 'America/Los_Angeles', 'Pacific/Kiritimati', 'Asia/Kolkata')
+
+
+def process_tz_cases(w: World):
+    """The midnight stream again, built and executed in a process whose local time zone is not UTC (TZ + tzset):
+    start/end dates are UTC days whatever the zone of the machine (seeded/C14-11)."""
+    out = []
+    for j, c in enumerate(midnight_cases(w)):
+        c2 = dict(c, tag='process-tz', process_tz=PROCESS_TZS[j % len(PROCESS_TZS)], plan=list(c['plan']))
+        out.append(c2)
+    return out
+
+
 def both_ends_box_cases(rng, w: World):
     """origin_bounding_box AND destination_bounding_box at once (a legal mix), built around stored routes so that
     the answer is non-empty and much smaller than 'everything leaving the origin box'."""
@@ -744,7 +758,27 @@ def classify_error(e: Exception) -> str:
 
 
 def run_impl(db, case):
-    """-> list of per-step outcomes: ('sql-ok',) | ('error', cls) | ('rows', [ids]) | ('count', n) | ('routes', [...])"""
+    """-> list of per-step outcomes: ('sql-ok',) | ('error', cls) | ('rows', [ids]) | ('count', n) | ('routes', [...])
+    A case may name a process time zone (`process_tz`): the query is then built and executed with TZ set to it —
+    the answer must not depend on the zone of the machine (dates are UTC days)."""
+    tz = case.get('process_tz')
+    if not tz:
+        return _run_impl(db, case)
+    import time as _time
+    old = os.environ.get('TZ')
+    os.environ['TZ'] = tz
+    _time.tzset()
+    try:
+        return _run_impl(db, case)
+    finally:
+        if old is None:
+            os.environ.pop('TZ', None)
+        else:
+            os.environ['TZ'] = old
+        _time.tzset()
+
+
+def _run_impl(db, case):
     try:
         q = make_query(case)
     except Exception as e:  # noqa: BLE001
@@ -1133,7 +1167,7 @@ def run(chk: Check):
     for name, n in (('generated', chk.n(330, 3000)), ('shipped', chk.n(130, 1200))):
         w = worlds[name]
         cases = ([c for c in corpus if c['db'] == name] + sample_cases(w) + value_cases(w) + falsy_cases(w) + sample_nth_cases(w) + single_route_cases(w)
-                 + midnight_cases(w)
+                 + midnight_cases(w) + process_tz_cases(w)
                  + both_ends_box_cases(chk.rng, w) + [gen_case(chk.rng, w) for _ in range(n)])
         for c in cases:
             c['db_seed'], c['db_n'] = db_seed, db_n
